@@ -16,7 +16,8 @@ from harness import coqfmt as cf
 SUITE = dict(imports=["Base.Chars", "Spec.Command"], in_ty="cmd_in", out_ty="cres",
              corr="corr_cmd", decide="check_cmd", inclass="inclass_cmd", model="run_command")
 
-THEOREMS = ["Cmd_model_holds", "Cmd_decider_sound", "Cmd_total"]
+SUITE_SEQ = dict(imports=["Base.Chars", "Spec.Command"], in_ty="list (cmd_in * cres)", out_ty="unit",
+                 corr="corr_cmds", decide="check_cmds", inclass="inclass_cmds")
 
 
 def S(s):
@@ -99,17 +100,12 @@ def _set_rows(db, rows):
         con.close()
 
 
-def run_cmd_case(h):
-    import warnings
-    warnings.simplefilter("ignore")
+def _observe_one(cfg, log, db, revs, rows, up, target):
+    """run ONE real command on the database as it is; returns (cin, cout, out)"""
     from alembic import command
     from alembic.script import revision as R
     from harness import graphs as gr
     from harness.props.c16 import _err_kind
-    c = h["cmd"]
-    revs, rows, up, target = c["revs"], c["rows"], c["up"], c["target"]
-    cfg, log, db = _materialize(revs)
-    _set_rows(db, rows if rows else None)
     open(log, "w").close()
     OM = _observing_map()
     orig = R.RevisionMap
@@ -158,13 +154,46 @@ def run_cmd_case(h):
         cout = "(COk %s %s)" % (cf.lst(S(x) for x in ran), cf.lst(S(x) for x in after))
     else:
         cout = "(CFail R.%s %s %s)" % (err, cf.lst(S(x) for x in ran), cf.lst(S(x) for x in after))
-    out = {"ran": ran, "rows_after": after, "err": err}
-    shape = "cmd-%s-n%d-%s" % ("up" if up else "down", len(revs), "ok" if err is None else err)
-    return dict(suite="cmd", cin=cin, cout=cout, out=out, nontrivial=bool(ran), shape=shape)
+    return cin, cout, {"ran": ran, "rows_after": after, "err": err}
+
+
+def run_cmd_case(h):
+    import warnings
+    warnings.simplefilter("ignore")
+    if "cmdseq" in h:
+        return run_cmdseq_case(h)
+    c = h["cmd"]
+    revs, rows, up, target = c["revs"], c["rows"], c["up"], c["target"]
+    cfg, log, db = _materialize(revs)
+    _set_rows(db, rows if rows else None)
+    cin, cout, out = _observe_one(cfg, log, db, revs, rows, up, target)
+    shape = "cmd-%s-n%d-%s" % ("up" if up else "down", len(revs), "ok" if out["err"] is None else out["err"])
+    return dict(suite="cmd", cin=cin, cout=cout, out=out, nontrivial=bool(out["ran"]), shape=shape)
+
+
+def run_cmdseq_case(h):
+    """a session: the commands run one after the other on ONE database that starts empty; every command is observed
+    together with the rows it found"""
+    from harness import graphs as gr
+    c = h["cmdseq"]
+    revs = c["revs"]
+    cfg, log, db = _materialize(revs)
+    _set_rows(db, None)
+    pairs, outs = [], []
+    for up, target in c["cmds"]:
+        rows = gr.db_rows(db)
+        cin, cout, out = _observe_one(cfg, log, db, revs, rows, up, target)
+        pairs.append("(%s, %s)" % (cin, cout))
+        outs.append(dict(out, rows_before=rows, up=up, target=target))
+    nran = sum(len(o["ran"]) for o in outs)
+    return dict(suite="cmdseq", cin=cf.lst(pairs), cout="tt", out={"session": outs}, nontrivial=nran > 0,
+                shape="cmdseq-n%d-k%d-%s" % (len(revs), len(outs), "err" if any(o["err"] for o in outs) else "ok"))
 
 
 def canary(human, rec):
     """corrupted observations the decider must reject"""
+    if "cmdseq" in human:
+        return []
     o = rec["out"]
     if o["err"] is not None or not o["ran"]:
         return []
@@ -311,3 +340,26 @@ def generate(up, tier, seed):
             ts = targets(revs, up, full=True)
             for t in rnd.sample(ts, min(len(ts), 6)):
                 yield {"cmd": {"revs": revs, "rows": rows, "up": up, "target": t}}
+
+
+def generate_sessions(tier, seed):
+    """sessions of typed commands from the empty database: every sequence of <=2 commands (from a fixed list of
+    spellings) on every history of <=3 revisions (sampled in quick), random sessions of 3-6 commands on random histories"""
+    rnd = random.Random(seed * 37 + 5)
+    for n in (2, 3):
+        hs = list(small_histories(n))
+        if n == 3 and tier == "quick":
+            hs = rnd.sample(hs, 6)
+        for revs in hs:
+            ids = [r["id"] for r in revs]
+            cmds = [(True, t) for t in ids + ["heads", "+1"]] + [(False, t) for t in ids[:2] + ["base", "-1"]]
+            for a in cmds:
+                for b in cmds:
+                    yield {"cmdseq": {"revs": revs, "cmds": [a, b]}}
+    for k in range(120 if tier == "quick" else 3000):
+        revs = rand_history(rnd, rnd.randint(3, 8))
+        cmds = []
+        for _ in range(rnd.randint(3, 6)):
+            up = rnd.random() < 0.6
+            cmds.append((up, rnd.choice(targets(revs, up, full=True))))
+        yield {"cmdseq": {"revs": revs, "cmds": cmds}}
